@@ -18,7 +18,9 @@ ASSUMPTIONS = [
 ]
 SHARDS = {"quick": 1, "thorough": 16}
 
-NAMES = ["user_id", "uid", "Zeta", "alpha", "Beta", "_id", "a", "B", "b", "a_b", "aB", "A1", "country", "device", "z9", "Z"]
+NAMES = ["user_id", "uid", "Zeta", "alpha", "Beta", "_id", "a", "B", "b", "a_b", "aB", "A1", "country", "device", "z9", "Z",
+         # names of Python builtins (legal field names) next to siblings that extend them: id / id2 / id_ / idx
+         "id", "id2", "id_", "idx", "type", "typeB", "hash", "hashV2", "input", "max", "max_", "format", "len", "list", "dict", "object"]
 SALTS_ASCII = ["x" * 70 + "_v1", "campaign-2024-q3-checkout-button-colour-test-for-returning-customers-v12", "007", "00", "0042", "1.50", "1e3",
                "1_000", "12", "-3", " 7", "inf", "nan", "0x10", "True", "None", "3", "0.0", " lead", "trail ", "\ttab", " ", "  ", "a  b", "x\t", "", "s", "exp-2024", "A B", "csdvs887", "it's", 'say "hi"', "C:\\temp\\new", "a\\", "%s{0}", "#x//y", "/* c */"]
 SALTS_UNI = ["é", "jose\u0301", "日本語", "salt-\U0001f600", "ß", "İ", "\u00a0x", "x\u3000", "\u2126", "\ufb01", "\uff21",
@@ -247,6 +249,12 @@ def fixed_cases():
             inputs = [M.enc_inputs({n: v for n in names}) for v in vals if not isinstance(v, (list, tuple))]
             inputs += [M.enc_inputs({n: "" for n in names})] * 4  # the same empty key again and again
             yield {"prog": prog, "inputs": inputs}
+    # field names that are Python builtins, with siblings that extend them (alphabetical order of the DECLARED names rules)
+    for names in (["id", "id2"], ["id2", "id"], ["type", "typeB", "type_"], ["hash", "hashV2", "hash_"], ["id_", "id", "idx", "id2"], ["max", "max_", "min"],
+                  ["len", "list", "dict", "object", "input", "format"]):
+        body = M.ret([(M.lit_str("g%d" % j), "1") for j in range(32)])
+        prog = M.program("exp", body, salt="s", splitters=names)
+        yield {"prog": prog, "inputs": [M.enc_inputs({n: "%s-%d" % (n[::-1], j) for n in names}) for j in range(8)]}
     # a share boundary placed EXACTLY on the unit's own published position k (integer weights k : 2^32-k, exact in floats):
     # groups own [lo, hi), so the unit belongs to the second group; with k+1 : 2^32-k-1 to the first; zero / one-point groups
     for j in range(12):
@@ -281,6 +289,14 @@ def run(ctx, rec):
         return
     if ctx.shard == 0:
         runner.direct_run(ctx, rec, "edge-keys", fixed_cases(), judge)
+        if rec.violations:
+            return
+        # the same again in a host that has switched DEBUG logging on for everything (a legal ambient setting): assignments
+        # must not depend on whether anybody is listening
+        from .. import common
+
+        with common.ambient(debug_logging=True):
+            runner.direct_run(ctx, rec, "edge-keys-with-debug-logging-on", fixed_cases(), judge)
         if rec.violations:
             return
     runner.hyp_run(ctx, rec, "programs", cases(), judge, ctx.n(400, 2500))
